@@ -488,110 +488,171 @@ func checkEncodeAll(p *Program, r *Report) {
 	var bad []string
 	nEnc := 0
 	hasGo := false
-	// Encode calls anywhere under F (closures included)
+	// the element loop of a block: index phi(0, +1) at the loop header, bounded by Len()
+	loopOf := func(b *ssa.BasicBlock) (*ssa.Phi, *ssa.BasicBlock, string) {
+		header := loopHeaderOf(b)
+		if header == nil {
+			return nil, nil, "is not in a loop"
+		}
+		var idx *ssa.Phi
+		for _, hin := range header.Instrs {
+			if ph, ok := hin.(*ssa.Phi); ok && isIntType(ph.Type()) {
+				okInit, okStep := false, true
+				for i, ed := range ph.Edges {
+					if header.Dominates(header.Preds[i]) {
+						bo, ok := stripConv(ed).(*ssa.BinOp)
+						k, isK := int64(0), false
+						if ok {
+							k, isK = constInt(bo.Y)
+						}
+						if !ok || bo.Op != token.ADD || stripConv(bo.X) != ssa.Value(ph) || !isK || k != 1 {
+							okStep = false
+						}
+					} else if c, ok := constInt(ed); ok && c == 0 {
+						okInit = true
+					}
+				}
+				if okInit && okStep {
+					idx = ph
+				}
+			}
+		}
+		if idx == nil {
+			return nil, header, "is in a loop that does not run from 0 in steps of 1"
+		}
+		okBound := false
+		if iff, ok := lastInstr(header).(*ssa.If); ok {
+			if bo, ok := iff.Cond.(*ssa.BinOp); ok && bo.Op == token.LSS && stripConv(bo.X) == ssa.Value(idx) {
+				if c, ok := bo.Y.(*ssa.Call); ok && calleeIs(c, "(reflect.Value).Len") {
+					okBound = true
+				}
+			}
+		}
+		if !okBound {
+			return idx, header, "is in a loop that is not bounded by the number of elements (Len of the elements value)"
+		}
+		return idx, header, ""
+	}
+	dependsOnV := func(v ssa.Value, target ssa.Value) bool {
+		dep := false
+		var walk func(v ssa.Value, d int)
+		walk = func(v ssa.Value, d int) {
+			if v == target {
+				dep = true
+			}
+			if d > 6 || dep || v == nil {
+				return
+			}
+			if _, isPhi := v.(*ssa.Phi); isPhi {
+				return
+			}
+			if in2, ok := v.(ssa.Instruction); ok {
+				var ops []*ssa.Value
+				for _, op := range in2.Operands(ops) {
+					if op != nil && *op != nil {
+						walk(*op, d+1)
+					}
+				}
+			}
+		}
+		walk(v, 0)
+		return dep
+	}
+	unconditional := func(b, header *ssa.BasicBlock) bool {
+		for i := range header.Preds {
+			if header.Dominates(header.Preds[i]) && !b.Dominates(header.Preds[i]) {
+				return false
+			}
+		}
+		return true
+	}
+	appendedIn := func(ec *ssa.Call) bool {
+		for _, ref := range *ec.Referrers() {
+			if ap, ok := ref.(*ssa.Call); ok {
+				if bi, ok := ap.Call.Value.(*ssa.Builtin); ok && bi.Name() == "append" && ap.Block() == ec.Block() {
+					return true
+				}
+			}
+		}
+		return false
+	}
+	// Encode calls anywhere under F (closures included), and per-element helpers F hands the encoder to
 	fs := append([]*ssa.Function{F}, F.AnonFuncs...)
 	for _, g := range fs {
 		instrsOf(g, func(b *ssa.BasicBlock, in ssa.Instruction) {
 			if _, ok := in.(*ssa.Go); ok {
 				hasGo = true
 			}
-			ec, ok := in.(*ssa.Call)
-			if !ok || !ec.Call.IsInvoke() || ec.Call.Method.Name() != "Encode" {
+			c, ok := in.(*ssa.Call)
+			if !ok {
+				return
+			}
+			if c.Call.IsInvoke() && c.Call.Method.Name() == "Encode" {
+				nEnc++
+				if g != F || c.Call.Value != ssa.Value(encPrm) {
+					bad = append(bad, "Encode is called at "+p.Pos(c.Pos())+" outside the element loop of "+shortFn(F)+" (in a closure or on another encoder)")
+					return
+				}
+				idx, header, why := loopOf(b)
+				if why != "" {
+					bad = append(bad, "Encode at "+p.Pos(c.Pos())+" "+why)
+					return
+				}
+				if len(c.Call.Args) != 1 || !dependsOnV(c.Call.Args[0], idx) {
+					bad = append(bad, "the value encoded at "+p.Pos(c.Pos())+" is not the element at the loop index")
+				}
+				if !appendedIn(c) || !unconditional(b, header) {
+					bad = append(bad, "the encoding produced at "+p.Pos(c.Pos())+" is not appended to the buffer on every iteration")
+				}
+				return
+			}
+			// a per-element helper: h(buf, encoder, element) that encodes its element and returns the appended buffer
+			h := calleeOf(c)
+			if g != F || h == nil || pkgPathOf(h) != arrayPath || len(h.Blocks) == 0 || hasLoop(h) {
+				return
+			}
+			encIdx := -1
+			for ai, a := range c.Call.Args {
+				if a == ssa.Value(encPrm) {
+					encIdx = ai
+				}
+			}
+			if encIdx < 0 || encIdx >= len(h.Params) {
+				return
+			}
+			var hec *ssa.Call
+			nh := 0
+			instrsOf(h, func(_ *ssa.BasicBlock, hin ssa.Instruction) {
+				if x, ok := hin.(*ssa.Call); ok && x.Call.IsInvoke() && x.Call.Method.Name() == "Encode" && x.Call.Value == ssa.Value(h.Params[encIdx]) {
+					hec = x
+					nh++
+				}
+			})
+			if nh == 0 {
 				return
 			}
 			nEnc++
-			if g != F || ec.Call.Value != ssa.Value(encPrm) {
-				bad = append(bad, "Encode is called at "+p.Pos(ec.Pos())+" outside the element loop of "+shortFn(F)+" (in a closure or on another encoder)")
+			r.Func(shortFn(h))
+			idx, header, why := loopOf(b)
+			if why != "" {
+				bad = append(bad, "the per-element helper call at "+p.Pos(c.Pos())+" "+why)
 				return
 			}
-			header := loopHeaderOf(b)
-			if header == nil {
-				bad = append(bad, "Encode at "+p.Pos(ec.Pos())+" is not in a loop")
-				return
+			if nh != 1 || !blockPostDominatesEntry(h, hec.Block()) || !appendedIn(hec) {
+				bad = append(bad, shortFn(h)+" does not encode its element exactly once and append the result on every path")
 			}
-			var idx *ssa.Phi
-			for _, hin := range header.Instrs {
-				if ph, ok := hin.(*ssa.Phi); ok && isIntType(ph.Type()) {
-					okInit, okStep := false, true
-					for i, ed := range ph.Edges {
-						if header.Dominates(header.Preds[i]) {
-							bo, ok := stripConv(ed).(*ssa.BinOp)
-							k, isK := int64(0), false
-							if ok {
-								k, isK = constInt(bo.Y)
-							}
-							if !ok || bo.Op != token.ADD || stripConv(bo.X) != ssa.Value(ph) || !isK || k != 1 {
-								okStep = false
-							}
-						} else if c, ok := constInt(ed); ok && c == 0 {
-							okInit = true
-						}
-					}
-					if okInit && okStep {
-						idx = ph
-					}
+			// which parameter feeds Encode, and does the caller pass the element at the loop index for it
+			okElt := false
+			for pi, prm := range h.Params {
+				if pi < len(c.Call.Args) && len(hec.Call.Args) == 1 && dependsOnV(hec.Call.Args[0], prm) && dependsOnV(c.Call.Args[pi], idx) {
+					okElt = true
 				}
 			}
-			if idx == nil {
-				bad = append(bad, "the loop around Encode at "+p.Pos(ec.Pos())+" does not run from 0 in steps of 1")
-				return
+			if !okElt {
+				bad = append(bad, "the element handed to "+shortFn(h)+" at "+p.Pos(c.Pos())+" is not the one at the loop index")
 			}
-			// bound: idx < Len()
-			okBound := false
-			if iff, ok := lastInstr(header).(*ssa.If); ok {
-				if bo, ok := iff.Cond.(*ssa.BinOp); ok && bo.Op == token.LSS && stripConv(bo.X) == ssa.Value(idx) {
-					if c, ok := bo.Y.(*ssa.Call); ok && calleeIs(c, "(reflect.Value).Len") {
-						okBound = true
-					}
-				}
-			}
-			if !okBound {
-				bad = append(bad, "the loop around Encode at "+p.Pos(ec.Pos())+" is not bounded by the number of elements (Len of the elements value)")
-			}
-			// argument: element at idx
-			dep := false
-			var walk func(v ssa.Value, d int)
-			walk = func(v ssa.Value, d int) {
-				if v == ssa.Value(idx) {
-					dep = true
-				}
-				if d > 6 || dep {
-					return
-				}
-				if _, isPhi := v.(*ssa.Phi); isPhi {
-					return
-				}
-				if in2, ok := v.(ssa.Instruction); ok {
-					var ops []*ssa.Value
-					for _, op := range in2.Operands(ops) {
-						if op != nil && *op != nil {
-							walk(*op, d+1)
-						}
-					}
-				}
-			}
-			if len(ec.Call.Args) == 1 {
-				walk(ec.Call.Args[0], 0)
-			}
-			if !dep {
-				bad = append(bad, "the value encoded at "+p.Pos(ec.Pos())+" is not the element at the loop index")
-			}
-			// result appended unconditionally
-			appended := false
-			for _, ref := range *ec.Referrers() {
-				if ap, ok := ref.(*ssa.Call); ok {
-					if bi, ok := ap.Call.Value.(*ssa.Builtin); ok && bi.Name() == "append" && ap.Block() == b {
-						appended = true
-					}
-				}
-			}
-			for i := range header.Preds {
-				if header.Dominates(header.Preds[i]) && !b.Dominates(header.Preds[i]) {
-					appended = false
-				}
-			}
-			if !appended {
-				bad = append(bad, "the encoding produced at "+p.Pos(ec.Pos())+" is not appended to the buffer on every iteration")
+			if !unconditional(b, header) {
+				bad = append(bad, "the per-element helper call at "+p.Pos(c.Pos())+" is skipped on some iterations")
 			}
 		})
 	}
